@@ -520,4 +520,248 @@ theorem fwd_attained (depart : α) (g : Graph α) (r : Array Nat) (hl : linksOk 
 
 end times
 
+/-! ## Part 4: what the two passes leave alone (frame properties of the literal models) -/
+section frames
+variable {α : Type} [Add α] [Sub α] [Mul α] [Div α] [Neg α] [LT α] [LE α]
+  [DecidableLT α] [DecidableLE α] [OfNat α 0] [OfNat α 1]
+
+theorem bind_ok {σ τ : Type} (x : Res σ) (f : σ → Res τ) (r : τ) :
+    (x >>= f) = .ok r ↔ ∃ a, x = .ok a ∧ f a = .ok r := by
+  cases x <;> simp [bind, Res.bind]
+
+/-- the fields the forward pass never writes -/
+def SameF (x y : Node α) : Prop :=
+  y.ttn = x.ttn ∧ y.dist = x.dist ∧ y.speed = x.speed ∧ y.nextAlt = x.nextAlt ∧ y.prevAlt = x.prevAlt ∧
+  y.link = x.link ∧ y.ty = x.ty
+
+def FrameF (g g' : Graph α) : Prop := g'.size = g.size ∧ ∀ i, SameF (nodeAt g i) (nodeAt g' i)
+
+theorem FrameF.refl (g : Graph α) : FrameF g g := ⟨rfl, fun _ => ⟨rfl, rfl, rfl, rfl, rfl, rfl, rfl⟩⟩
+
+theorem FrameF.trans {g g' g'' : Graph α} (h : FrameF g g') (h' : FrameF g' g'') : FrameF g g'' := by
+  refine ⟨h'.1.trans h.1, fun i => ?_⟩
+  obtain ⟨a1, a2, a3, a4, a5, a6, a7⟩ := h.2 i
+  obtain ⟨b1, b2, b3, b4, b5, b6, b7⟩ := h'.2 i
+  exact ⟨b1.trans a1, b2.trans a2, b3.trans a3, b4.trans a4, b5.trans a5, b6.trans a6, b7.trans a7⟩
+
+theorem modN_frame {g g' : Graph α} {i : Nat} {f : Node α → Node α}
+    (h : modN g i f = .ok g') (hf : ∀ x, SameF x (f x)) : FrameF g g' := by
+  unfold modN at h
+  cases hx : g[i]? with
+  | none => simp [hx] at h
+  | some x =>
+    simp only [hx] at h
+    cases h
+    refine ⟨by simp, fun j => ?_⟩
+    unfold nodeAt
+    rw [Array.getD_eq_getD_getElem?, Array.getD_eq_getD_getElem?]
+    by_cases hj : i = j
+    · subst hj
+      have hi : i < g.size := by
+        by_contra hc
+        have : g[i]? = none := by simp; omega
+        rw [this] at hx; cases hx
+      rw [Array.getElem?_setIfInBounds_self, if_pos hi, hx]
+      exact hf x
+    · rw [Array.getElem?_setIfInBounds_ne hj]
+      exact ⟨rfl, rfl, rfl, rfl, rfl, rfl, rfl⟩
+
+theorem check_ok (c : Bool) (u : Unit) : check c = .ok u ↔ c = true := by
+  unfold check; cases c <;> simp
+
+theorem pure_ok {σ : Type} (a b : σ) : (pure a : Res σ) = .ok b ↔ a = b := by
+  simp [pure]
+
+theorem pushNextAlts_frame : ∀ (f : Nat) (g : Graph α) (q : List (α × Nat)) (i : Nat) (g' : Graph α)
+    (q' : List (α × Nat)), pushNextAlts f g q i = .ok (g', q') → FrameF g g'
+  | 0, g, q, i, g', q', h => by simp [pushNextAlts] at h
+  | f + 1, g, q, i, g', q', h => by
+    unfold pushNextAlts at h
+    simp only [bind_ok] at h
+    obtain ⟨c, _, h⟩ := h
+    split at h
+    · rw [pure_ok] at h; cases h; exact FrameF.refl g
+    · simp only [bind_ok] at h
+      obtain ⟨g1, hg1, a, _, t, _, h⟩ := h
+      exact (modN_frame hg1 (fun x => ⟨rfl, rfl, rfl, rfl, rfl, rfl, rfl⟩)).trans
+        (pushNextAlts_frame f _ _ _ _ _ h)
+
+theorem fwdChain_frame : ∀ (f : Nat) (g : Graph α) (q : List (α × Nat)) (c n : Nat) (r : Graph α × List (α × Nat) × Nat × Nat),
+    fwdChain f g q c n = .ok r → FrameF g r.1
+  | 0, g, q, c, n, r, h => by simp [fwdChain] at h
+  | f + 1, g, q, c, n, r, h => by
+    unfold fwdChain at h
+    simp only [bind_ok] at h
+    obtain ⟨nx, _, u, _, cc, _, g1, hg1, nx2, _, p, hp, nn, _, h⟩ := h
+    obtain ⟨g2, q2⟩ := p
+    have f1 := modN_frame hg1 (fun x => ⟨rfl, rfl, rfl, rfl, rfl, rfl, rfl⟩)
+    have f2 := pushNextAlts_frame _ _ _ _ _ _ hp
+    split at h
+    · rw [pure_ok] at h; subst h; exact f1.trans f2
+    · exact (f1.trans f2).trans (fwdChain_frame f _ _ _ _ _ h)
+
+theorem fwdLoop_frame : ∀ (f : Nat) (g : Graph α) (q : List (α × Nat)) (g' : Graph α),
+    fwdLoop f g q = .ok g' → FrameF g g'
+  | 0, g, q, g', h => by simp [fwdLoop] at h
+  | f + 1, g, q, g', h => by
+    unfold fwdLoop at h
+    split at h
+    · cases h; exact FrameF.refl g
+    · simp only [bind_ok] at h
+      obtain ⟨c, _, u1, _, nx, _, u2, _, idxNext, _, g1, hg1, r, hr, h⟩ := h
+      have f1 : FrameF g g1 := by
+        split at hg1
+        · simp only [bind_ok] at hg1
+          obtain ⟨jn, _, ga, ha, gb, hb, gc, hc, hd⟩ := hg1
+          exact ((modN_frame ha (fun x => ⟨rfl, rfl, rfl, rfl, rfl, rfl, rfl⟩)).trans
+            (modN_frame hb (fun x => ⟨rfl, rfl, rfl, rfl, rfl, rfl, rfl⟩))).trans
+            ((modN_frame hc (fun x => ⟨rfl, rfl, rfl, rfl, rfl, rfl, rfl⟩)).trans
+            (modN_frame hd (fun x => ⟨rfl, rfl, rfl, rfl, rfl, rfl, rfl⟩)))
+        · rw [pure_ok] at hg1; subst hg1; exact FrameF.refl g
+      have f2 := fwdChain_frame _ _ _ _ _ _ hr
+      obtain ⟨g2, q2, ic, inx⟩ := r
+      simp only at h
+      obtain ⟨nn, _, cc, _, h⟩ := h
+      split at h
+      · split at h
+        · simp only [bind_ok] at h
+          obtain ⟨g3, hg3, h⟩ := h
+          exact ((f1.trans f2).trans (modN_frame hg3 (fun x => ⟨rfl, rfl, rfl, rfl, rfl, rfl, rfl⟩))).trans
+            (fwdLoop_frame f _ _ _ h)
+        · simp only [bind_ok] at h
+          obtain ⟨_, _, t, _, h⟩ := h
+          exact (f1.trans f2).trans (fwdLoop_frame f _ _ _ h)
+      · simp only [bind_ok] at h
+        obtain ⟨_, _, _, _, h⟩ := h
+        exact (f1.trans f2).trans (fwdLoop_frame f _ _ _ h)
+
+/-- the forward pass writes `time_sched`, `idx_next`, `idx_prev` and nothing else: the vector keeps its
+    length and every node its event, durations, speed and alternate links -/
+theorem updateForward_frame (g g' : Graph α) (depart : α) (h : updateForward g depart = .ok g') :
+    FrameF g g' := by
+  unfold updateForward at h
+  simp only [bind_ok] at h
+  obtain ⟨g1, h1, g2, h2, p, hp, h⟩ := h
+  obtain ⟨g3, q3⟩ := p
+  exact (((modN_frame h1 (fun x => ⟨rfl, rfl, rfl, rfl, rfl, rfl, rfl⟩)).trans
+    (modN_frame h2 (fun x => ⟨rfl, rfl, rfl, rfl, rfl, rfl, rfl⟩))).trans
+    (pushNextAlts_frame _ _ _ _ _ _ hp)).trans (fwdLoop_frame _ _ _ _ h)
+
+/-! ### backward -/
+
+/-- the fields the backward pass never writes (it exchanges `time_to_next` / `dist_to_next` between a split
+    node and its fake when it relinks them) -/
+def SameB (x y : Node α) : Prop :=
+  y.speed = x.speed ∧ y.nextAlt = x.nextAlt ∧ y.prevAlt = x.prevAlt ∧ y.link = x.link ∧ y.ty = x.ty
+
+def FrameB (g g' : Graph α) : Prop := g'.size = g.size ∧ ∀ i, SameB (nodeAt g i) (nodeAt g' i)
+
+theorem FrameB.refl (g : Graph α) : FrameB g g := ⟨rfl, fun _ => ⟨rfl, rfl, rfl, rfl, rfl⟩⟩
+
+theorem FrameB.trans {g g' g'' : Graph α} (h : FrameB g g') (h' : FrameB g' g'') : FrameB g g'' := by
+  refine ⟨h'.1.trans h.1, fun i => ?_⟩
+  obtain ⟨a1, a2, a3, a4, a5⟩ := h.2 i
+  obtain ⟨b1, b2, b3, b4, b5⟩ := h'.2 i
+  exact ⟨b1.trans a1, b2.trans a2, b3.trans a3, b4.trans a4, b5.trans a5⟩
+
+theorem modN_frameB {g g' : Graph α} {i : Nat} {f : Node α → Node α}
+    (h : modN g i f = .ok g') (hf : ∀ x, SameB x (f x)) : FrameB g g' := by
+  unfold modN at h
+  cases hx : g[i]? with
+  | none => simp [hx] at h
+  | some x =>
+    simp only [hx] at h
+    cases h
+    refine ⟨by simp, fun j => ?_⟩
+    unfold nodeAt
+    rw [Array.getD_eq_getD_getElem?, Array.getD_eq_getD_getElem?]
+    by_cases hj : i = j
+    · subst hj
+      have hi : i < g.size := by
+        by_contra hc
+        have : g[i]? = none := by simp; omega
+        rw [this] at hx; cases hx
+      rw [Array.getElem?_setIfInBounds_self, if_pos hi, hx]
+      exact hf x
+    · rw [Array.getElem?_setIfInBounds_ne hj]
+      exact ⟨rfl, rfl, rfl, rfl, rfl⟩
+
+theorem pushPrevAlts_frame : ∀ (f : Nat) (g : Graph α) (p : Array Bool) (q : List (α × α × Nat)) (i : Nat)
+    (r : Graph α × Array Bool × List (α × α × Nat)), pushPrevAlts f g p q i = .ok r → FrameB g r.1
+  | 0, g, p, q, i, r, h => by simp [pushPrevAlts] at h
+  | f + 1, g, p, q, i, r, h => by
+    unfold pushPrevAlts at h
+    simp only [bind_ok] at h
+    obtain ⟨c, _, h⟩ := h
+    split at h
+    · rw [pure_ok] at h; subst h; exact FrameB.refl g
+    · simp only [bind_ok] at h
+      obtain ⟨a, _, g1, hg1, p1, _, a2, _, ap, _, k, _, s, _, h⟩ := h
+      exact (modN_frameB hg1 (fun x => ⟨rfl, rfl, rfl, rfl, rfl⟩)).trans (pushPrevAlts_frame f _ _ _ _ _ h)
+
+theorem bwdChain_frame (timeSub : α) : ∀ (f : Nat) (g : Graph α) (p : Array Bool) (q : List (α × α × Nat))
+    (c n : Nat) (r : Graph α × Array Bool × List (α × α × Nat) × Nat × Nat),
+    bwdChain timeSub f g p q c n = .ok r → FrameB g r.1
+  | 0, g, p, q, c, n, r, h => by simp [bwdChain] at h
+  | f + 1, g, p, q, c, n, r, h => by
+    unfold bwdChain at h
+    simp only [bind_ok] at h
+    obtain ⟨pp, _, u, _, g1, hg1, p1, _, pn, _, t, ht, pn2, _, h⟩ := h
+    obtain ⟨g2, p2, q2⟩ := t
+    have f1 := modN_frameB hg1 (fun x => ⟨rfl, rfl, rfl, rfl, rfl⟩)
+    have f2 := pushPrevAlts_frame _ _ _ _ _ _ ht
+    split at h
+    · rw [pure_ok] at h; subst h; exact f1.trans f2
+    · exact (f1.trans f2).trans (bwdChain_frame timeSub f _ _ _ _ _ _ h)
+
+theorem bwdLoop_frame : ∀ (f : Nat) (g : Graph α) (p : Array Bool) (q : List (α × α × Nat)) (g' : Graph α),
+    bwdLoop f g p q = .ok g' → FrameB g g'
+  | 0, g, p, q, g', h => by simp [bwdLoop] at h
+  | f + 1, g, p, q, g', h => by
+    unfold bwdLoop at h
+    split at h
+    · cases h; exact FrameB.refl g
+    · simp only [bind_ok] at h
+      obtain ⟨c, _, pc, _, u1, _, pp, _, u2, _, idxPrev, _, g1, hg1, r, hr, h⟩ := h
+      have f1 : FrameB g g1 := by
+        split at hg1
+        · simp only [bind_ok] at hg1
+          obtain ⟨pn, _, ga, ha, gb, hb, gc, hc, gd, hd, s1, _, p1, _, ge, he, gf, hf, s2, _, p2, _, gg, hg, hh⟩ := hg1
+          have m := fun {a b : Graph α} {i : Nat} {f : Node α → Node α} (h : modN a i f = .ok b)
+            (hf : ∀ x, SameB x (f x)) => modN_frameB h hf
+          exact (((m ha (fun x => ⟨rfl, rfl, rfl, rfl, rfl⟩)).trans (m hb (fun x => ⟨rfl, rfl, rfl, rfl, rfl⟩))).trans
+            ((m hc (fun x => ⟨rfl, rfl, rfl, rfl, rfl⟩)).trans (m hd (fun x => ⟨rfl, rfl, rfl, rfl, rfl⟩)))).trans
+            (((m he (fun x => ⟨rfl, rfl, rfl, rfl, rfl⟩)).trans (m hf (fun x => ⟨rfl, rfl, rfl, rfl, rfl⟩))).trans
+            ((m hg (fun x => ⟨rfl, rfl, rfl, rfl, rfl⟩)).trans (m hh (fun x => ⟨rfl, rfl, rfl, rfl, rfl⟩))))
+        · rw [pure_ok] at hg1; subst hg1; exact FrameB.refl g
+      have f2 := bwdChain_frame _ _ _ _ _ _ _ _ hr
+      obtain ⟨g2, p2, q2, ic, ip⟩ := r
+      simp only at h
+      obtain ⟨pp2, _, pn, _, cc, _, h⟩ := h
+      split at h
+      · split at h
+        · simp only [bind_ok] at h
+          obtain ⟨g3, hg3, cc2, _, g4, hg4, p3, _, p4, _, h⟩ := h
+          exact (((f1.trans f2).trans (modN_frameB hg3 (fun x => ⟨rfl, rfl, rfl, rfl, rfl⟩))).trans
+            (modN_frameB hg4 (fun x => ⟨rfl, rfl, rfl, rfl, rfl⟩))).trans (bwdLoop_frame f _ _ _ _ h)
+        · simp only [bind_ok] at h
+          obtain ⟨_, _, k, _, h⟩ := h
+          exact (f1.trans f2).trans (bwdLoop_frame f _ _ _ _ h)
+      · simp only [bind_ok] at h
+        obtain ⟨_, _, _, _, h⟩ := h
+        exact (f1.trans f2).trans (bwdLoop_frame f _ _ _ _ h)
+
+/-- the backward pass keeps the vector's length and every node's event, speed and alternate links -/
+theorem updateBackward_frame (g g' : Graph α) (h : updateBackward g = .ok g') : FrameB g g' := by
+  unfold updateBackward at h
+  simp only at h
+  split at h
+  · cases h
+  · simp only [bind_ok] at h
+    obtain ⟨p1, _, p2, _, st, _, sp, _, k, _, t, ht, h⟩ := h
+    obtain ⟨g1, p3, q3⟩ := t
+    exact (pushPrevAlts_frame _ _ _ _ _ _ ht).trans (bwdLoop_frame _ _ _ _ _ h)
+
+end frames
+
 end Altrios.Proofs.EstL
